@@ -67,6 +67,11 @@ Expand(prog) == ExpandSeq(prog, 1, [defs |-> <<>>, macros |-> <<>>], <<>>, <<>>)
 \* an expansion is meaningful when every item resolved to a number or a string
 Flat(p) == \A i \in 1..Len(p) : p[i].k = "data" => \A j \in 1..Len(p[i].items) : p[i].items[j].k \in {"num", "str", "here", "sym"}
 
+\* a name of the macro table (define, equ, macro) defined a second time is an error, not a substitution
+IsDef(s) == s.k \in {"define", "equ", "macro"}
+Redef(prog) == \E i \in 1..Len(prog) : \E j \in (i + 1)..Len(prog) : IsDef(prog[i]) /\ IsDef(prog[j]) /\ prog[i].n = prog[j].n
+
 \* obs as in AsmData!Conforms
-Transparent(prog, bpa, big0, obs) == LET e == Expand(prog) IN Flat(e) => Conforms(e, bpa, big0, obs)
+Transparent(prog, bpa, big0, obs) == IF Redef(prog) THEN obs.k = "rej"
+                                     ELSE LET e == Expand(prog) IN Flat(e) => Conforms(e, bpa, big0, obs)
 =============================================================================
